@@ -189,6 +189,7 @@ class Verdict:
 
     def violation(self, key, what, replay):
         """key: fingerprint of the failing input/call site/history."""
+        what = str(what).replace('\n', ' | ')
         if key in self.known:
             self.seen_known.setdefault(key, []).append(what)
             return False
